@@ -378,6 +378,9 @@ func r024(c *Ctx, r *R) {
 		// above the call are err == nil tests
 		okPath := true
 		for _, gd := range guardsOf(site.Call.Block()) {
+			if gd.Derived {
+				continue // what a successful decode implies is not a condition of the hook
+			}
 			if !gNil(gd, false, func(v ssa.Value) bool { return true }) {
 				okPath = false
 			}
